@@ -136,6 +136,17 @@ func (g *genState) inlineSchema(allowRefs bool) *SchemaM {
 			e := g.enums[r.Intn(len(g.enums))]
 			props = append(props, fmt.Sprintf("%q: \"red\" // {enum: %s}", key, e))
 			s.Enums = appendUniq(s.Enums, e)
+		case k == 2 && allowRefs && len(g.types) > 0 && r.Chance(1, 3):
+			// an "or" rule mixing built-in and user types, in any order
+			t := g.types[r.Intn(len(g.types))]
+			type alt struct {
+				val   string
+				rules []string
+			}
+			a := []alt{{"\"text\"", []string{"\"string\"", fmt.Sprintf("%q", t)}}, {"5", []string{fmt.Sprintf("%q", t), "\"integer\""}},
+				{"7", []string{"{type: \"integer\"}", fmt.Sprintf("{type: %q}", t)}}, {"true", []string{"\"boolean\"", "\"string\"", fmt.Sprintf("%q", t)}}}[r.Intn(4)]
+			props = append(props, fmt.Sprintf("%q: %s // {or: [%s]}", key, a.val, strings.Join(a.rules, ", ")))
+			s.Types = appendUniq(s.Types, t)
 		case k == 2:
 			props = append(props, fmt.Sprintf("%q: \"text %d\"", key, r.Intn(100)))
 		case k == 3:
